@@ -1,10 +1,12 @@
 #!/bin/sh
-# run every claimed check (quick tier) against /repo and report
+# run every claimed check (quick tier) against /repo and report; exit 1 if any check did not exit 0
 cd "$(dirname "$0")/.." || exit 2
 rc=0
 for f in props/*.json; do
   id=$(basename $f .json)
-  ./check $id ${1:-quick} | tail -4
-  [ $? -ne 0 ] && rc=1
+  out=$(./check $id ${1:-quick}); r=$?
+  echo "$out" | grep -E "^(VIOLATION|UNDECIDED|SELFTEST-REGRESSION)"
+  echo "$out" | tail -1
+  [ $r -ne 0 ] && { rc=1; echo "CHECK-FAILED $id exit=$r"; }
 done
 exit $rc
